@@ -187,7 +187,7 @@ def walk_own(fnode):
             stack.append(ch)
 
 
-def inline_temporaries(fnode, expr, depth=4, keep=()):
+def inline_temporaries(fnode, expr, depth=4, keep=(), inline_calls=False):
     """copy of `expr` in which every name that the function assigns exactly once (plain
     `name = <expression>`, no augmented assignment, not a loop/with/except target, not a
     parameter) is replaced by its defining expression, recursively.  Lets an expression-shaped
@@ -218,7 +218,8 @@ def inline_temporaries(fnode, expr, depth=4, keep=()):
             for x in ast.walk(n.optional_vars):
                 if isinstance(x, ast.Name):
                     counts[x.id] = counts.get(x.id, 0) + 2
-    single = {k: v for k, v in defs.items() if counts.get(k) == 1 and k not in params and k not in keep and not isinstance(v, (ast.Call, ast.Lambda, ast.ListComp, ast.GeneratorExp, ast.Constant))}
+    skip = (ast.Lambda, ast.ListComp, ast.GeneratorExp, ast.Constant) if inline_calls else (ast.Call, ast.Lambda, ast.ListComp, ast.GeneratorExp, ast.Constant)
+    single = {k: v for k, v in defs.items() if counts.get(k) == 1 and k not in params and k not in keep and not isinstance(v, skip)}
 
     class Sub(ast.NodeTransformer):
         def __init__(self, d):
